@@ -53,13 +53,10 @@ def theorem(tier, rng, seed):
 
 # ---------------------------------------------------------------------------------------------
 def make_observable(op, absolute=False):
-    if op["k"] == "X":
-        return SigmaX(absolute=absolute)
-    if op["k"] == "Y":
-        return SigmaY(absolute=absolute)
-    if op["k"] == "Z":
-        return SigmaZ(absolute=absolute)
-    return NeighbourInteraction(periodic_bcs=op["per"], c=op["c"])
+    # documented arguments by position as often as by keyword
+    if op["k"] in ("X", "Y", "Z"):
+        return common.api_call({"X": SigmaX, "Y": SigmaY, "Z": SigmaZ}[op["k"]], ["absolute"], dict(absolute=absolute))
+    return common.api_call(NeighbourInteraction, ["periodic_bcs", "c"], dict(periodic_bcs=op["per"], c=op["c"]))
 
 
 def op_name(op):
